@@ -136,9 +136,10 @@ class RefOvld:
             if m.body == "cnv":
                 v = m.env["__v"]
                 if self.applicable(m, (v,), {}):
-                    visited.add(m.id)
-                else:
-                    visited = set()  # m not applicable to the new args: a fresh call
+                    # continuing below m for *other* arguments depends on how ties around m's
+                    # rank are counted, which the statement leaves open: abstain
+                    return ("diverge", tuple(trace))
+                visited = set()  # m not applicable to the new args: a fresh call
                 cur_args, cur_kwargs = (v,), {}
                 continue
             return ("ret", tuple(trace))
